@@ -324,6 +324,8 @@ func (g *fileIPGenerator) IPs(ctx context.Context, _ *Range) (<-chan IPGetter, e
 		scanner := bufio.NewScanner(input)
 		var entry IPPort
 		for scanner.Scan() {
+			// fields missing in this line must not be taken from the previous one
+			entry.IP = ""
 			if err := entry.UnmarshalJSON(scanner.Bytes()); err != nil {
 				writeIP(ctx, out, &ipError{error: ErrJSON})
 				return
